@@ -11,6 +11,16 @@ truncates toward zero".
      looks at an operand type (``.type`` / ``.dtype`` / ``BasicType``), then the
      output cannot depend on integer vs real operands, yet both identities are
      false under truncating division ((1+1)/2 = 1 but 1/2 + 1/2 = 0).
+ R2  logical identities: ``map_logical_and`` / ``map_logical_or`` /
+     ``map_logical_not`` only ask whether a (simplified) operand *is* the literal
+     ``True`` / ``False``.  Each operand is therefore abstracted to T, F or an
+     opaque term; the handler bodies are executed abstractly (checker's own
+     evaluator, constructors modelled) for every operand tuple of length 1..3
+     over {T, F, p, q} and the result must be logically equivalent to the input
+     (same value for every assignment of p, q).
+ R3  the comparison folder's operator table maps every relational operator to
+     the Python operator of the same meaning, and folding happens only when both
+     sides are constants.
 Not decided: every other rewrite (literal folding, coefficient collection, sign
 handling, powers) -- value-level, not structural.
 """
@@ -24,10 +34,12 @@ PROP = 'C08'
 
 META = dict(
     technique='call-graph reachability inside the simplifier module + structural recognition of two real-only rewrite shapes + '
-              'type-blindness (no read of type information anywhere on the reachable code)',
+              'type-blindness (no read of type information anywhere on the reachable code); abstract execution of the three logical '
+              'handlers over the finite operand abstraction {T, F, opaque p, q} with a truth-table equivalence check; operator-table check',
     level='Decides one necessary condition of the integer-division clause: a simplifier that distributes or re-associates '
           'division must consult operand types somewhere; if no reachable function does, integer quotients are rewritten like '
-          'real ones. Does NOT decide any other simplification step.',
+          'real ones; and the logical-operator / constant-comparison folding exactly (finite abstraction). Does NOT decide the '
+          'arithmetic rewrites (literal folding, coefficient collection, powers).',
     note='Rewrite shapes are recognised syntactically (loop building one Quotient per queued term; Quotient branch that splits '
          'numerator/denominator into a factor queue).',
     ref='DESIGN.md section 3, C08',
@@ -111,8 +123,146 @@ def run(ctx):
     if not identities:
         ctx.judge('R1', 'no real-only identity reachable', facts={'reachable': sorted(reach)})
 
+    _logic_rules(ctx, S)
+
+
+class _Lit:
+    """abstract LogicLiteral: compares equal to the strings 'True' / 'False' like loki's literal does"""
+    def __init__(self, v):
+        self.v = bool(v) if not isinstance(v, str) else v.lower() == 'true'
+
+    def __eq__(self, other):
+        if isinstance(other, str):
+            return other.lower() == ('true' if self.v else 'false')
+        return isinstance(other, _Lit) and other.v == self.v
+
+    def __hash__(self):
+        return hash(self.v)
+
+    def __repr__(self):
+        return 'T' if self.v else 'F'
+
+
+class _Atom:
+    def __init__(self, n):
+        self.n = n
+
+    def __eq__(self, other):
+        return isinstance(other, _Atom) and other.n == self.n
+
+    def __hash__(self):
+        return hash(self.n)
+
+    def __repr__(self):
+        return self.n
+
+
+class _Op:
+    def __init__(self, kind, children):
+        self.kind, self.children = kind, tuple(children)
+
+    def __eq__(self, other):
+        return isinstance(other, _Op) and (self.kind, self.children) == (other.kind, other.children)
+
+    def __hash__(self):
+        return hash((self.kind, self.children))
+
+    def __repr__(self):
+        return f'{self.kind}{self.children}'
+
+
+def _value(e, val):
+    if isinstance(e, _Lit):
+        return e.v
+    if isinstance(e, _Atom):
+        return val[e.n]
+    if e.kind == 'and':
+        return all(_value(c, val) for c in e.children)
+    if e.kind == 'or':
+        return any(_value(c, val) for c in e.children)
+    return not _value(e.children[0], val)
+
+
+def _logic_rules(ctx, S):
+    import itertools
+    import types
+    from sa.miniev import run_function, Unknown
+    ctx.rule('R2', 'map_logical_and / map_logical_or / map_logical_not: abstract execution over operand tuples of length 1..3 from '
+                   '{T, F, p, q}; the result is logically equivalent to the input for every assignment of p, q')
+    ctx.rule('R3', 'map_comparison: op_map pairs each relational operator with the Python operator of the same meaning; folding is '
+                   'guarded by is_constant(left) and is_constant(right)')
+    sym = types.SimpleNamespace(
+        LogicLiteral=_Lit, LogicalAnd=lambda ch: _Op('and', ch), LogicalOr=lambda ch: _Op('or', ch), LogicalNot=lambda c: _Op('not', (c,)))
+    simp = types.SimpleNamespace(LogicEvaluation=1)
+    me = types.SimpleNamespace(rec=lambda x, *a, **k: x, enabled_simplifications=1)
+    dom = [_Lit(True), _Lit(False), _Atom('p'), _Atom('q')]
+    n2 = 0
+    for hn, kind in (('map_logical_and', 'and'), ('map_logical_or', 'or'), ('map_logical_not', 'not')):
+        f = S.function(hn)
+        if f is None:
+            raise AnalysisError(f'SimplifyMapper.{hn} vanished')
+        par = [a.arg for a in f.node.args.args][1]
+        bad = None
+        lens = (1,) if kind == 'not' else (1, 2, 3)
+        for ln in lens:
+            for tup in itertools.product(dom, repeat=ln):
+                inp = _Op(kind, tup)
+                node = types.SimpleNamespace(children=tup, child=tup[0])
+                env = {'self': me, par: node, 'sym': sym, 'Simplification': simp, 'args': (), 'kwargs': {}}
+                try:
+                    out = run_function(f.node, env)
+                except Unknown as u:
+                    raise AnalysisError(f'SimplifyMapper.{hn} uses `{u}`, outside the evaluated fragment')
+                n2 += 1
+                if not isinstance(out, (_Lit, _Atom, _Op)):
+                    bad = bad or (tup, out, 'not an expression')
+                    continue
+                for p_, q_ in itertools.product((True, False), repeat=2):
+                    val = {'p': p_, 'q': q_}
+                    if _value(inp, val) != _value(out, val):
+                        bad = bad or (tup, out, f'p={p_}, q={q_}')
+        inst = f'SimplifyMapper.{hn}:equivalence'
+        if bad:
+            ctx.violation('R2', inst, f.where,
+                          f'{hn} rewrites {kind}{bad[0]} to {bad[1]!r}, which has a different truth value for {bad[2]}',
+                          facts={'input': repr(bad[0]), 'output': repr(bad[1])})
+        else:
+            ctx.judge('R2', inst, facts={'operand_tuples_evaluated': 84 if kind != 'not' else 4})
+    ctx.floor('R2', 'abstract executions of the logical handlers', n2, 150)
+    # ---- R3
+    mc = S.function('map_comparison')
+    table = None
+    for n in ast.walk(mc.node):
+        if isinstance(n, ast.Assign) and isinstance(n.value, ast.Dict) and ast.unparse(n.targets[0]) == 'op_map':
+            table = {ast.literal_eval(k): ast.unparse(v).split('.')[-1] for k, v in zip(n.value.keys, n.value.values)}
+    want = {'==': 'eq', '!=': 'ne', '<': 'lt', '<=': 'le', '>': 'gt', '>=': 'ge'}
+    if table is None:
+        raise AnalysisError('SimplifyMapper.map_comparison: op_map not found')
+    for k, v in want.items():
+        inst = f'map_comparison:op_map[{k}]'
+        if table.get(k) == v:
+            ctx.judge('R3', inst)
+        else:
+            ctx.violation('R3', inst, mc.where, f'op_map maps `{k}` to operator.{table.get(k)} (expected operator.{v}): constant '
+                          f'comparisons are folded to the wrong truth value', facts={'table': table})
+    guards = [g for _, gs in X.nodes_with_guards(mc.node, lambda x: isinstance(x, ast.Call) and X.call_name_of(x) == 'LogicLiteral') for g in gs]
+    ok = any('is_constant(left) and is_constant(right)' in g for g in guards)
+    (ctx.judge('R3', 'map_comparison:folds-constants-only', facts={'guards': sorted(set(guards))}) if ok else
+     ctx.violation('R3', 'map_comparison:folds-constants-only', mc.where, 'comparison folding is not guarded by both sides being constant'))
+
 
 MUTANTS = [
+    Mutant('and-any-true-short-circuits', FILE, "            if any(c == 'False' for c in children):\n                return sym.LogicLiteral('False')\n            if any(c == 'True' for c in children):\n                # Trim all literals and return .true. if all were .true.",
+           "            if any(c == 'False' for c in children):\n                return sym.LogicLiteral('False')\n            if all(c == 'True' for c in children):\n                return sym.LogicLiteral('True')\n            if any(c == 'True' for c in children):\n                return children[0]\n            if any(c == 'True' for c in children):\n                # Trim all literals and return .true. if all were .true.",
+           expect=('R2', 'map_logical_and')),
+    Mutant('or-empty-becomes-true', FILE, "return sym.LogicalOr(children) if len(children) > 0 else sym.LogicLiteral('False')", "return sym.LogicalOr(children) if len(children) > 0 else sym.LogicLiteral('True')",
+           expect=('R2', 'map_logical_or')),
+    Mutant('not-of-true-is-true', FILE, "            if child == 'True':\n                return sym.LogicLiteral(False)", "            if child == 'True':\n                return sym.LogicLiteral(True)",
+           expect=('R2', 'map_logical_not')),
+    Mutant('neutral-and-early-all-true', FILE, "            if any(c == 'False' for c in children):\n                return sym.LogicLiteral('False')\n            if any(c == 'True' for c in children):\n                # Trim all literals and return .true. if all were .true.",
+           "            if any(c == 'False' for c in children):\n                return sym.LogicLiteral('False')\n            if all(c == 'True' for c in children):\n                return sym.LogicLiteral('True')\n            if any(c == 'True' for c in children):\n                # Trim all literals and return .true. if all were .true.",
+           expect=None),
+    Mutant('op-map-swapped', FILE, "'<': _op.lt, '<=': _op.le}", "'<': _op.le, '<=': _op.lt}", expect=('R3', 'op_map')),
     Mutant('repair-type-aware', FILE, "    queue = [expr.numerator]\n",
            "    if getattr(getattr(expr.numerator, 'type', None), 'dtype', None) is not None:\n        return expr\n    queue = [expr.numerator]\n",
            expect=None, quick=True),
